@@ -9,7 +9,7 @@
    (Combine over Go maps, rank, nest, set patterns, printing), are observed by
    running the same programs under different hash seeds (hook VERIF_HASH_SEED)
    and comparing value and printed bytes. *)
-From Arrai Require Import Base.Val Spec.SetAlg Eval.Interp Proofs.ValOrder Proofs.SetAlgP Proofs.PermP Proofs.FuelP.
+From Arrai Require Import Base.Val Spec.SetAlg Eval.Interp Proofs.ValOrder Proofs.SetAlgP Proofs.PermP Proofs.FuelP Proofs.RankP.
 From Coq Require Import Permutation.
 
 Theorem C07_canonical_form_ignores_enumeration_order :
@@ -59,3 +59,26 @@ Proof.
   - apply single_nest_data_perm, Ha.
 Qed.
 Print Assumptions C07_joins_and_nests_ignore_enumeration_order.
+
+(* rank does not depend on the order in which the rows are enumerated: the same rows come out (in the other
+   order), the same set, and whether there is a value at all is the same *)
+Theorem C07_rank_ignores_enumeration_order :
+  forall keyed keyed', Permutation keyed keyed' ->
+    (forall rows, rank_rows keyed = Ok rows ->
+       exists rows', rank_rows keyed' = Ok rows' /\ Permutation rows rows' /\ mkset rows = mkset rows') /\
+    ((exists rows, rank_rows keyed = Ok rows) <-> (exists rows, rank_rows keyed' = Ok rows)).
+Proof.
+  intros keyed keyed' Hp. split.
+  - intros rows H. exact (rank_rows_perm _ _ _ Hp H).
+  - exact (rank_rows_defined_perm _ _ Hp).
+Qed.
+Print Assumptions C07_rank_ignores_enumeration_order.
+
+(* non-vacuity: three keyed rows with a tie, enumerated in two orders *)
+Example C07_rank_probe :
+  let r1 : krow := ([([97], vint 1)], [([114], vint 5)]) in
+  let r2 : krow := ([([97], vint 2)], [([114], vint 5)]) in
+  let r3 : krow := ([([97], vint 3)], [([114], vint 7)]) in
+  (exists rows, rank_rows [r1; r2; r3] = Ok rows /\ rank_rows [r3; r1; r2] <> Ok rows) /\
+  (do rows <- rank_rows [r1; r2; r3]; Ok (mkset rows)) = (do rows <- rank_rows [r3; r1; r2]; Ok (mkset rows)).
+Proof. vm_compute. split; [eexists; split; [reflexivity | discriminate] | reflexivity]. Qed.
